@@ -311,6 +311,7 @@ class SimFS:
         path = os.fspath(file)
         if isinstance(path, bytes):
             path = path.decode('utf-8', 'surrogateescape')
+        path = os.path.normpath(path)       # aliases name the same file
         ch = self.chan
         binary = 'b' in mode
         kind = mode.replace('b', '').replace('t', '')
